@@ -140,7 +140,11 @@ func Solve(query string, dir string, name string, timeoutS int, all bool) Result
 	defer cancel()
 	ch := make(chan Result, len(solvers))
 	var wg sync.WaitGroup
-	for _, sp := range solvers {
+	use := solvers
+	if !all {
+		use = solvers[:2] // quick tier: z3 5.1 and cvc5; z3 4.8.12 joins in the thorough tier
+	}
+	for _, sp := range use {
 		wg.Add(1)
 		go func(sp solverSpec) {
 			defer wg.Done()
